@@ -256,7 +256,7 @@ func runC19(c *core.Ctx) *core.Outcome {
 // stripe (so that a report can be attributed to one run), and turns exit code 66 into a
 // violation whose replay is that run's tape.
 func c19RacePhase(opt core.Options, cov map[string]interface{}) ([]core.ExtViolation, error) {
-	bin := filepath.Join(opt.VerifDir, "bin", "visim-race")
+	bin := filepath.Join(binDir(opt.VerifDir), "visim-race")
 	if _, err := os.Stat(bin); err != nil {
 		return nil, fmt.Errorf("race-detector binary %s missing: %v", bin, err)
 	}
@@ -345,4 +345,11 @@ func firstN(s string, n int) string {
 		l = l[:n]
 	}
 	return strings.Join(l, "\n")
+}
+
+func binDir(verif string) string {
+	if b := os.Getenv("VISIM_BIN"); b != "" {
+		return b
+	}
+	return filepath.Join(verif, "bin")
 }
